@@ -33,8 +33,13 @@ var allConfigs = map[string]BuildConfig{
 	"386":                 {Name: "386", GOARCH: "386"},
 }
 
+// extraLoadTags: additional build tags for this run (the lemma hook of C03 is behind `verifhooks`
+// so that every other check loads the repository without it)
+var extraLoadTags []string
+
 func loadEngine(repo string, cfg BuildConfig, contractDir string) (*Engine, error) {
 	tags := append([]string{"verif"}, cfg.Tags...)
+	tags = append(tags, extraLoadTags...)
 	pc := &packages.Config{Mode: packages.LoadAllSyntax, Dir: repo, BuildFlags: []string{"-tags=" + strings.Join(tags, ",")}}
 	pc.Env = append(os.Environ(), "GOFLAGS=-mod=mod", "GOPROXY=off", "GOSUMDB=off", "GOTOOLCHAIN=local", "CGO_ENABLED=0")
 	if cfg.GOARCH != "" {
@@ -503,6 +508,9 @@ func cmdVerify(args []string) {
 	}
 	if os.Getenv("GOVC_MEMO") != "" {
 		memoOpen("/verif")
+	}
+	if t := os.Getenv("GOVC_TAGS"); t != "" {
+		extraLoadTags = strings.Split(t, ",")
 	}
 	t0 := time.Now()
 	en, err := loadEngine(*repo, cfg, *cdir)
